@@ -68,7 +68,8 @@ def main(ctx, replay=None):
         sig = {"key": f"{I}{J}"}
         sp = [fld(x, d) for x in row["spectrum"]]
         for sn in range(nstrain + 1):
-            ntv = 4
+            # number of volumes: 3 (as many as axes: a transposed strain field has the same shape) for every key, and 1, 2, 4, 6 in turn
+            ntv = 3 if sn == 0 else (4, 1, 6, 2)[(I + J + sn) % 4]
             e = draw_fractions(rng, ntv) * rng.uniform(0.5, 3.0)       # positive triples (not normalised)
             if sn == nstrain:
                 e = rng.integers(1, 12, (ntv, 3))                     # ... also given as whole numbers (an integer-typed array)
